@@ -202,3 +202,67 @@ package pql
 //@   invariant -1 <= rangeindex && rangeindex < len(sub.sort.Terms)
 //@   invariant Wterms(mapdom(ctx.scope), mapval(ctx.scope), ctx.mode, sub.sort.Terms, rangeindex + 1, out(sb)) == Wterms(mapdom(ctx.scope), mapval(ctx.scope), ctx.mode, sub.sort.Terms, 0, olit(WSop(mapdom(ctx.scope), mapval(ctx.scope), ctx.mode, ctx.source, sub.sourceSQL, sub.op, old(out(sb))), " ORDER BY "))
 //@   decreases len(sub.sort.Terms) - rangeindex
+
+// ---------------------------------------------------------------- splitting a pipeline into subqueries
+
+//@ func pql.subqueryName
+//@   use plan
+//@   trusted fmt.Sprintf("__subquery%d", i) is a function of i (sqn), injective in i
+//@   ensures result == sqn(i)
+
+//@ func pql.canAttachSort
+//@   use plan
+//@   ensures result == canAttach(op)
+
+//@ func pql.dataSourceSQL
+//@   use plan
+//@   requires sb != nil && srcWF(src)
+//@   ensures result == nil && out(sb) == QI(tableNameOf(src), old(out(sb)))
+//@   assigns out(sb)
+
+//@ func pql.chainSubquery
+//@   inline
+//@   use plan
+//@   requires srcWF(src) && 0 <= dstStart && dstStart <= len(dst)
+//@   requires forall(j, 0, len(dst), dst[j] != nil && dst[j] < alloc())
+//@   ensures @ok: result1 == nil && result0 != nil && result0 >= old(alloc()) && result0 < alloc()
+//@   ensures @fields: result0.name == sqn(len(dst)) && result0.op == nil && result0.sort == nil && result0.take == nil
+//@   ensures @source: result0.sourceSQL == ite(len(dst) > dstStart, refSQL(dst[len(dst)-1].name), tableSQL(src))
+
+//@ func pql.rewriteSimpleJoinCondition
+//@   use joincond
+//@   requires exprWF(c)
+//@   ensures result == rewriteCond(c)
+
+//@ func pql.buildJoinCondition
+//@   use joincond
+//@   requires exprWFL(conds, len(conds))
+//@   ensures result == JoinCond(conds)
+//@ loop 1
+//@   invariant -1 <= rangeindex && rangeindex < len(conds) - 1
+//@   invariant x == JC(conds, rangeindex + 2)
+//@   decreases len(conds) - rangeindex
+
+//@ func pql.splitQueries
+//@   use split
+//@   hide expr joincond view
+//@   requires tabWF(source, expr)
+//@   requires allBelow(dst, len(dst), alloc()) && distinctL(dst, len(dst))
+//@   ensures @plan: result1 == nil ==> viewL(fieldheap("subquery", "name"), fieldheap("subquery", "sourceSQL"), fieldheap("subquery", "op"), fieldheap("subquery", "sort"), fieldheap("subquery", "take"), result0, len(result0)) == SplitT(mapdom(scope), mapval(scope), expr, old(viewL(fieldheap("subquery", "name"), fieldheap("subquery", "sourceSQL"), fieldheap("subquery", "op"), fieldheap("subquery", "sort"), fieldheap("subquery", "take"), dst, len(dst))))
+//@   ensures @refs: result1 == nil ==> len(result0) > len(dst) && allBelow(result0, len(result0), alloc()) && distinctL(result0, len(result0))
+//@   ensures @prefix: result1 == nil ==> forall(j, 0, len(dst), result0[j] == dst[j]) && forall(j, len(dst), len(result0), result0[j] >= old(alloc()))
+//@   ensures @wf: result1 == nil ==> forall(j, len(dst), len(result0), subWF(source, subAt(fieldheap("subquery", "name"), fieldheap("subquery", "sourceSQL"), fieldheap("subquery", "op"), fieldheap("subquery", "sort"), fieldheap("subquery", "take"), result0[j])))
+//@   decreases height(expr)
+//@ loop 1
+//@   invariant 0 <= i && i <= len(expr.Operators) && dstStart == len(old(dst)) && len(dst) >= dstStart
+//@   invariant allBelow(dst, len(dst), alloc()) && distinctL(dst, len(dst))
+//@   invariant forall(j, 0, dstStart, dst[j] == old(dst)[j]) && forall(j, dstStart, len(dst), dst[j] >= old(alloc()))
+//@   invariant (len(dst) == dstStart && lastSubquery == nil) || (len(dst) > dstStart && lastSubquery == dst[len(dst)-1])
+//@   invariant Split(mapdom(scope), mapval(scope), expr.Operators, i, viewL(fieldheap("subquery", "name"), fieldheap("subquery", "sourceSQL"), fieldheap("subquery", "op"), fieldheap("subquery", "sort"), fieldheap("subquery", "take"), dst, len(dst)), dstStart, expr.Source) == Split(mapdom(scope), mapval(scope), expr.Operators, 0, old(viewL(fieldheap("subquery", "name"), fieldheap("subquery", "sourceSQL"), fieldheap("subquery", "op"), fieldheap("subquery", "sort"), fieldheap("subquery", "take"), dst, len(dst))), dstStart, expr.Source)
+//@   invariant forall(j, dstStart, len(dst), subWF(source, subAt(fieldheap("subquery", "name"), fieldheap("subquery", "sourceSQL"), fieldheap("subquery", "op"), fieldheap("subquery", "sort"), fieldheap("subquery", "take"), dst[j])))
+//@   invariant forall(r, 0, old(alloc()), fieldheap("subquery", "name")[r] == old(fieldheap("subquery", "name"))[r])
+//@   invariant forall(r, 0, old(alloc()), fieldheap("subquery", "sourceSQL")[r] == old(fieldheap("subquery", "sourceSQL"))[r])
+//@   invariant forall(r, 0, old(alloc()), fieldheap("subquery", "op")[r] == old(fieldheap("subquery", "op"))[r])
+//@   invariant forall(r, 0, old(alloc()), fieldheap("subquery", "sort")[r] == old(fieldheap("subquery", "sort"))[r])
+//@   invariant forall(r, 0, old(alloc()), fieldheap("subquery", "take")[r] == old(fieldheap("subquery", "take"))[r])
+//@   decreases len(expr.Operators) - i
